@@ -7,10 +7,8 @@ import (
 )
 
 type perIPConnCounter struct {
-	perIPConnPool    sync.Pool
-	perIPTLSConnPool sync.Pool
-	m                map[uint32]int
-	lock             sync.Mutex
+	m    map[uint32]int
+	lock sync.Mutex
 }
 
 func (cc *perIPConnCounter) Register(ip uint32) int {
@@ -39,13 +37,18 @@ func (cc *perIPConnCounter) Unregister(ip uint32) {
 	}
 }
 
+// perIPConn and perIPTLSConn stay usable after Close and are never handed to
+// another connection: the ConnState hook receives them with StateClosed after
+// the connection has been closed and must still be able to tell, e.g. from
+// RemoteAddr, which connection that is.
 type perIPConn struct {
 	net.Conn
 
 	perIPConnCounter *perIPConnCounter
 
-	ip   uint32
-	lock sync.Mutex
+	ip     uint32
+	lock   sync.Mutex
+	closed bool
 }
 
 type perIPTLSConn struct {
@@ -53,69 +56,53 @@ type perIPTLSConn struct {
 
 	perIPConnCounter *perIPConnCounter
 
-	ip   uint32
-	lock sync.Mutex
+	ip     uint32
+	lock   sync.Mutex
+	closed bool
 }
 
 func acquirePerIPConn(conn net.Conn, ip uint32, counter *perIPConnCounter) net.Conn {
 	if tlsConn, ok := conn.(*tls.Conn); ok {
-		v := counter.perIPTLSConnPool.Get()
-		if v == nil {
-			return &perIPTLSConn{
-				perIPConnCounter: counter,
-				Conn:             tlsConn,
-				ip:               ip,
-			}
-		}
-		c := v.(*perIPTLSConn) //nolint:forcetypeassert
-		c.Conn = tlsConn
-		c.ip = ip
-		return c
-	}
-
-	v := counter.perIPConnPool.Get()
-	if v == nil {
-		return &perIPConn{
+		return &perIPTLSConn{
 			perIPConnCounter: counter,
-			Conn:             conn,
+			Conn:             tlsConn,
 			ip:               ip,
 		}
 	}
-	c := v.(*perIPConn) //nolint:forcetypeassert
-	c.Conn = conn
-	c.ip = ip
-	return c
+	return &perIPConn{
+		perIPConnCounter: counter,
+		Conn:             conn,
+		ip:               ip,
+	}
 }
 
 func (c *perIPConn) Close() error {
 	c.lock.Lock()
-	cc := c.Conn
-	c.Conn = nil
+	closed := c.closed
+	c.closed = true
 	c.lock.Unlock()
 
-	if cc == nil {
+	if closed {
 		return nil
 	}
 
-	err := cc.Close()
+	err := c.Conn.Close()
 	c.perIPConnCounter.Unregister(c.ip)
-	c.perIPConnCounter.perIPConnPool.Put(c)
 	return err
 }
 
 func (c *perIPTLSConn) Close() error {
 	c.lock.Lock()
-	cc := c.Conn
-	c.Conn = nil
+	closed := c.closed
+	c.closed = true
 	c.lock.Unlock()
 
-	if cc == nil {
+	if closed {
 		return nil
 	}
 
-	err := cc.Close()
+	err := c.Conn.Close()
 	c.perIPConnCounter.Unregister(c.ip)
-	c.perIPConnCounter.perIPTLSConnPool.Put(c)
 	return err
 }
 
